@@ -1,14 +1,14 @@
 """C02 — pairing values equal the SM9 R-ate pairing byte for byte (everything the standard fixes that is a literal, a layout or a loop shape)."""
 from core import report
 from core.sm9 import Repo
-from . import shared, consts, layout, expo, miller
+from . import shared, consts, conv2, expo, miller
 
 
 def run(ctx):
     repo = Repo(ctx.dev)
-    r_lay, _ = layout.rule_layout("C02", repo, layout.std_tables(repo.P))
+    r_lay, _ = conv2.rule_layout("C02", repo, conv2.make_conv(repo), ["crate::fields::fq2::Fq2::to_slice", "crate::fields::fq4::Fq4::to_slice", "crate::fields::fq12::Fq12::to_slice", "crate::Gt::to_slice"])
     rules = [consts.rule_const("C02", repo), consts.rule_generators("C02", repo), consts.rule_frobenius("C02", repo), consts.rule_frob_dispatch("C02", repo),
-             r_lay, layout.rule_wrappers("C02", repo, [("crate::Gt::to_slice", "crate::fields::fq12::Fq12::to_slice")]), expo.rule_exp("C02", repo)] + miller.rules("C02", repo)
+             r_lay, expo.rule_exp("C02", repo)] + miller.rules("C02", repo)
     return report.emit(
         "C02", ctx.tier, ctx.seed, rules, ctx.started,
         "Every literal the standard fixes satisfies its defining relation (q, r, t, 6t+2 and its signed-digit expansion, Montgomery constants, Frobenius constants, chain exponents, "
